@@ -491,7 +491,7 @@ def domain_guard(chk, prog, refs=None):
     return n
 
 
-ALL = {"PARAM-DEAD": param_dead, "SWAPPED-ARGS": swapped_args, "METHOD-TRUTH": method_truth, "VIEW-SWAP": view_swap,
+ALL = {"UNIT-GUARD": lambda chk, prog, files: unit_guard(chk, prog, files), "PARAM-DEAD": param_dead, "SWAPPED-ARGS": swapped_args, "METHOD-TRUTH": method_truth, "VIEW-SWAP": view_swap,
        "MODULE-STATE": module_state, "SHADOW-REBIND": shadow_rebind, "CASE-MIXED": case_mixed, "INT-ALLOC": int_alloc}
 
 
@@ -531,6 +531,12 @@ def _lint_fixture_global(frame):
     if _FIX_CACHE is None:
         _FIX_CACHE = 1 if frame else 2
     return _FIX_CACHE
+def _lint_fixture_units(angle, deg=True):
+    if angle * DEG2RAD > 3:
+        return 0.0
+    if deg:
+        angle = angle * DEG2RAD
+    return angle
 def _lint_fixture_alloc(p):
     out = _np.zeros_like(p)
     out[0] = p[0]/3
@@ -538,7 +544,7 @@ def _lint_fixture_alloc(p):
 '''
 FIXTURE_HOST = "ahrs/common/frames.py"
 # rule -> properties that own it (None = every property, on its anchor files)
-OWNERS = {"PARAM-DEAD": None, "SWAPPED-ARGS": None, "METHOD-TRUTH": None, "VIEW-SWAP": None, "INT-ALLOC": None, "CASE-MIXED": None,
+OWNERS = {"UNIT-GUARD": None, "PARAM-DEAD": None, "SWAPPED-ARGS": None, "METHOD-TRUTH": None, "VIEW-SWAP": None, "INT-ALLOC": None, "CASE-MIXED": None,
           "SHADOW-REBIND": None,
           # process-wide hidden state only contradicts properties that promise repeatability / isolation / history independence
           "MODULE-STATE": {"C06", "C15", "C19"}}
@@ -610,3 +616,73 @@ def run_for(chk, prog, pid, files=None, extra_files=()):
 
 def os_base(p):
     return p.rsplit("/", 1)[-1]
+
+
+# ------------------------------------------------------------------------------------------------------------ UNIT-GUARD
+UNIT_FLAGS = ("degrees", "deg", "in_degrees", "in_deg")
+CONVERSIONS = ("DEG2RAD", "RAD2DEG")
+
+
+def unit_guard(chk, prog, files):
+    """In a function with a boolean unit flag (deg / degrees / in_degrees) a degree<->radian conversion of a *parameter-derived* angle is only
+    right on one setting of the flag, so it must be control-dependent on the flag.  An unconditional conversion (while the same function also
+    converts under the flag) is applied for both settings: wrong for one of them."""
+    n = 0
+    for f in _funcs(prog, files):
+        params = _params(f)
+        flags = [p for p in params if p in UNIT_FLAGS]
+        if not flags:
+            continue
+        flag = flags[0]
+        guarded, unguarded = [], []
+
+        def is_conv(x):
+            if isinstance(x, ast.BinOp) and isinstance(x.op, (ast.Mult, ast.Div)):
+                for side in (x.left, x.right):
+                    if isinstance(side, ast.Name) and side.id in CONVERSIONS:
+                        return True
+            if isinstance(x, ast.Call) and ast.unparse(x.func).split(".")[-1] in ("deg2rad", "rad2deg", "radians", "degrees"):
+                return True
+            if isinstance(x, ast.AugAssign) and isinstance(x.op, (ast.Mult, ast.Div)) and isinstance(x.value, ast.Name) and x.value.id in CONVERSIONS:
+                return True
+            return False
+
+        def classify(node, under):
+            """conversions in an expression/simple statement; a conditional expression on the flag guards both of its arms"""
+            if isinstance(node, ast.IfExp) and any(isinstance(t, ast.Name) and t.id == flag for t in ast.walk(node.test)):
+                classify(node.test, under)
+                classify(node.body, True)
+                classify(node.orelse, True)
+                return
+            if is_conv(node):
+                (guarded if under else unguarded).append(node)
+            for c in ast.iter_child_nodes(node):
+                classify(c, under)
+
+        def walk(stmts, under):
+            for s in stmts:
+                if isinstance(s, ast.If):
+                    dep = under or any(isinstance(t, ast.Name) and t.id == flag for t in ast.walk(s.test))
+                    classify(s.test, under)
+                    walk(s.body, dep)
+                    walk(s.orelse, dep)
+                    continue
+                if isinstance(s, (ast.For, ast.While, ast.With, ast.Try)):
+                    walk(getattr(s, "body", []), under)
+                    walk(getattr(s, "orelse", []), under)
+                    for h in getattr(s, "handlers", []):
+                        walk(h.body, under)
+                    walk(getattr(s, "finalbody", []), under)
+                    continue
+                classify(s, under)
+        walk(f.node.body, False)
+        n += len(guarded) + len(unguarded)
+        if guarded and unguarded:
+            ptaint = _tainted_by_params(f.node, [p for p in params if p != flag])
+            for x in unguarded:
+                if any(isinstance(t, ast.Name) and t.id in ptaint for t in ast.walk(x)):
+                    chk.finding("UNIT-GUARD", f.module.rel, f.qname, "unconditional conversion %s" % ast.unparse(x)[:70],
+                                "`%s` converts a caller-supplied angle whatever `%s` says, while the same function converts under `if %s`: for one setting of the flag the value "
+                                "is converted twice or tested in the wrong unit" % (ast.unparse(x)[:60], flag, flag), line=x.lineno)
+    chk.counts["UNIT-GUARD.conversions"] = chk.counts.get("UNIT-GUARD.conversions", 0) + n
+    return n
